@@ -48,7 +48,10 @@ def shape_programs(thorough):
     shs = space.shapes(2, thorough)
     if not thorough:
         l2 = [s for s in shs if s.depth == 2]
-        shs = [s for s in shs if s.depth < 2] + l2[::3] + [s for s in l2 if not space.compilable(s)]
+        picked = l2[::3] + [s for s in l2 if not space.compilable(s)]
+        # every double below a set / map key switches to the DoubleKey form: keep all of those
+        picked += [s for s in l2 if s.has_double and s.text.startswith(("set<", "map<double", "map<AliasDbl")) and s not in picked]
+        shs = [s for s in shs if s.depth < 2] + picked
     progs = []
     per = 12
     for ci in range(0, len(shs), per):
@@ -290,12 +293,16 @@ def run(a, rep):
         detail = ""
         if prog.cls == "type-shapes":
             nums = sorted(set(int(x) for f in files for x in re.findall(r"^[oua](\d+)\.rs$", f)))
-            texts = [shs[n].text for n in nums if n < len(shs)]
-            detail = " shapes: " + ", ".join(texts[:6])
-            for t in texts:
+            detail = " shapes: " + ", ".join(shs[n].text for n in nums[:6] if n < len(shs))
+            for n in nums:
+                if n >= len(shs):
+                    continue
+                t = shs[n].text
+                mine = [e for e in errs if re.match(r"^[oua]%d\.rs$" % n, os.path.basename(e[0]))]
+                own_codes = sorted(set(e[1] or "error" for e in mine))
                 known_cls = [x for x in shs if x.text == t and not space.compilable(x)]
                 shape_sig = "shape-class:map-value-with-bare-double-below-a-set|%s" % t if known_cls else "shape:%s" % t
-                rep.violation("C03|does-not-compile|%s|%s" % (shape_sig, ",".join(codes)), "generated code for a type of shape %s does not compile: %s" % (t, errs[0][2][:300]), {"program": pid, "label": prog.label})
+                rep.violation("C03|does-not-compile|%s|%s" % (shape_sig, ",".join(own_codes)), "generated code for a type of shape %s does not compile: %s" % (t, mine[0][2][:300]), {"program": pid, "label": prog.label})
             if nums:
                 continue
             detail = " (in the service / error files of the shape program)"
